@@ -56,6 +56,8 @@ Lines ==
      [kind |-> "assign",  line |-> "source_path=$SRCA", opt |-> "source_path", val |-> "$SRCA"],
      [kind |-> "assign",  line |-> "source_path=$SRCB", opt |-> "source_path", val |-> "$SRCB"],
      [kind |-> "assign",  line |-> "intel_syntax=true", opt |-> "intel_syntax", val |-> "true"],
+     [kind |-> "assign",  line |-> "prune_from=g", opt |-> "prune_from", val |-> "g"],
+     [kind |-> "assign",  line |-> "prune_from=h", opt |-> "prune_from", val |-> "h"],
      [kind |-> "command", line |-> "list g",         opt |-> "", val |-> ""],
      [kind |-> "command", line |-> "disasm main",    opt |-> "", val |-> ""],
      \* C09: lines the grammar must reject (or ignore) without any effect
@@ -88,16 +90,18 @@ Idx(K) == {i \in DOMAIN Lines : Lines[i].kind \in K}
 MaxLen == IF Tier = "guard" THEN 2 ELSE 3
 C09Lines == Idx({"bad", "noop"})
 
-Opts == {"focus", "hide", "tagroot", "granularity", "nodecount", "sample_index", "sort", "noinlines", "taghide", "relative_percentages", "source_path", "trim_path", "intel_syntax"}
+Opts == {"focus", "hide", "tagroot", "granularity", "nodecount", "sample_index", "sort", "noinlines", "taghide", "relative_percentages", "source_path", "trim_path", "intel_syntax", "prune_from"}
 \* directed histories, longer than MaxLen: a report, a change of an option that only a LATER report can show, that report
 Directed == { <<"granularity=files", "source_path=/home/me/proj", "top", "source_path=/x/src", "top">>,
               <<"granularity=files", "trim_path=/build", "top", "trim_path=/build/proj", "top">>,
               <<"lines=true", "source_path=/x/src", "top", "source_path=/home/me/proj", "tree h">>,
               <<"source_path=$SRCA", "list g", "source_path=$SRCB", "list g">>,
               <<"source_path=$SRCB", "list g", "trim_path=/build", "source_path=$SRCA", "list g">>,
-              <<"disasm main", "intel_syntax=true", "disasm main">> }
+              <<"disasm main", "intel_syntax=true", "disasm main">>,
+              <<"prune_from=g", "traces", "prune_from=h", "traces">>,
+              <<"prune_from=h", "tree h", "prune_from=g", "traces", "top10 -f">> }
 OnlyDirected == {"source_path=/home/me/proj", "source_path=/x/src", "trim_path=/build", "trim_path=/build/proj",
-                 "source_path=$SRCA", "source_path=$SRCB", "intel_syntax=true", "list g", "disasm main"}
+                 "source_path=$SRCA", "source_path=$SRCB", "intel_syntax=true", "list g", "disasm main", "prune_from=g", "prune_from=h"}
 Default == [o \in Opts |-> "default"]
 
 VARIABLES hist,      \* the lines typed so far (indices into Lines)
